@@ -38,17 +38,17 @@ MsgCh(s, i) == SubSeq(s, i, i)
 MsgLowerSet == {MsgCh(MsgLowerS, i) : i \in 1..26}
 MsgUpperSet == {MsgCh(MsgUpperS, i) : i \in 1..26}
 MsgDigitSet == {MsgCh(MsgDigitS, i) : i \in 1..10}
-MsgUpperMap == [c \in MsgLowerSet |-> MsgCh(MsgUpperS, CHOOSE i \in 1..26 : MsgCh(MsgLowerS, i) = c)]
-MsgLowerMap == [c \in MsgUpperSet |-> MsgCh(MsgLowerS, CHOOSE i \in 1..26 : MsgCh(MsgUpperS, i) = c)]
+MsgUpperMap == [ch \in MsgLowerSet |-> MsgCh(MsgUpperS, CHOOSE i \in 1..26 : MsgCh(MsgLowerS, i) = ch)]
+MsgLowerMap == [ch \in MsgUpperSet |-> MsgCh(MsgLowerS, CHOOSE i \in 1..26 : MsgCh(MsgUpperS, i) = ch)]
 
-MsgIsLower(c)  == c \in MsgLowerSet
-MsgIsUpper(c)  == c \in MsgUpperSet
-MsgIsDigit(c)  == c \in MsgDigitSet
-MsgIsLetter(c) == MsgIsLower(c) \/ MsgIsUpper(c)
-MsgIsAlnum(c)  == MsgIsLetter(c) \/ MsgIsDigit(c)
+MsgIsLower(ch)  == ch \in MsgLowerSet
+MsgIsUpper(ch)  == ch \in MsgUpperSet
+MsgIsDigit(ch)  == ch \in MsgDigitSet
+MsgIsLetter(ch) == MsgIsLower(ch) \/ MsgIsUpper(ch)
+MsgIsAlnum(ch)  == MsgIsLetter(ch) \/ MsgIsDigit(ch)
 
-MsgUpperC(c) == IF c \in MsgLowerSet THEN MsgUpperMap[c] ELSE c
-MsgLowerC(c) == IF c \in MsgUpperSet THEN MsgLowerMap[c] ELSE c
+MsgUpperC(ch) == IF ch \in MsgLowerSet THEN MsgUpperMap[ch] ELSE ch
+MsgLowerC(ch) == IF ch \in MsgUpperSet THEN MsgLowerMap[ch] ELSE ch
 
 RECURSIVE MsgLowerFrom(_, _)
 MsgLowerFrom(s, i) == IF i > Len(s) THEN "" ELSE MsgLowerC(MsgCh(s, i)) \o MsgLowerFrom(s, i + 1)
@@ -80,17 +80,17 @@ MsgStripTrail(s) ==
 
 MsgWordBoundary(s, i) ==
   /\ i > 1
-  /\ LET p == MsgCh(s, i - 1) c == MsgCh(s, i) IN
-     \/ MsgIsLetter(p) /\ MsgIsUpper(c) /\ i < Len(s) /\ MsgIsLower(MsgCh(s, i + 1))
-     \/ MsgIsLetter(p) /\ MsgIsDigit(c)
-     \/ MsgIsDigit(p) /\ MsgIsLetter(c)
+  /\ LET p == MsgCh(s, i - 1) ch == MsgCh(s, i) IN
+     \/ MsgIsLetter(p) /\ MsgIsUpper(ch) /\ i < Len(s) /\ MsgIsLower(MsgCh(s, i + 1))
+     \/ MsgIsLetter(p) /\ MsgIsDigit(ch)
+     \/ MsgIsDigit(p) /\ MsgIsLetter(ch)
 
 RECURSIVE MsgUUFrom(_, _)
 MsgUUFrom(s, i) ==
   IF i > Len(s) THEN ""
-  ELSE LET c == MsgCh(s, i) IN
-       IF c = "_" /\ i > 1 /\ MsgCh(s, i - 1) = "_" THEN MsgUUFrom(s, i + 1)
-       ELSE (IF MsgWordBoundary(s, i) THEN "_" ELSE "") \o MsgUpperC(c) \o MsgUUFrom(s, i + 1)
+  ELSE LET ch == MsgCh(s, i) IN
+       IF ch = "_" /\ i > 1 /\ MsgCh(s, i - 1) = "_" THEN MsgUUFrom(s, i + 1)
+       ELSE (IF MsgWordBoundary(s, i) THEN "_" ELSE "") \o MsgUpperC(ch) \o MsgUUFrom(s, i + 1)
 
 ToUpperUnderscore(ident) == MsgUUFrom(MsgStripTrail(MsgStripLead(ident)), 1)
 
@@ -339,18 +339,18 @@ MsgPick(pool, ix) == [i \in 1..Len(ix) |-> pool[ix[i]]]
 \* (the subjects' base names are tabulated once)
 MsgPluralSubjectBases == [i \in 1..Len(MsgPluralSubjects) |-> MsgExprBase(MsgPluralSubjects[i], "NUM")]
 
-MsgFamBody(c) ==
-  IF c.kind = "flat" THEN MsgPick(PoolC10, c.ix)
-  ELSE << [k |-> "plural", e |-> MsgPluralSubjects[c.subj],
-           cases |-> [i \in 1..Len(c.cb) |-> MCase(MsgCaseSets[c.cs][i], MsgPick(MsgInnerPool, c.cb[i]))],
-           dflt |-> MsgPick(MsgInnerPool, c.db),
-           b |-> MsgPluralSubjectBases[c.subj]] >>
+MsgFamBody(d) ==
+  IF d.kind = "flat" THEN MsgPick(PoolC10, d.ix)
+  ELSE << [k |-> "plural", e |-> MsgPluralSubjects[d.subj],
+           cases |-> [i \in 1..Len(d.cb) |-> MCase(MsgCaseSets[d.cs][i], MsgPick(MsgInnerPool, d.cb[i]))],
+           dflt |-> MsgPick(MsgInnerPool, d.db),
+           b |-> MsgPluralSubjectBases[d.subj]] >>
 
 RECURSIVE MsgIxStr(_)
 MsgIxStr(ix) == IF ix = <<>> THEN "" ELSE ToString(Head(ix)) \o "." \o MsgIxStr(Tail(ix))
 RECURSIVE MsgIxStrs(_)
 MsgIxStrs(q) == IF q = <<>> THEN "" ELSE MsgIxStr(Head(q)) \o "/" \o MsgIxStrs(Tail(q))
-MsgFamId(c) ==
-  IF c.kind = "flat" THEN "F" \o MsgIxStr(c.ix)
-  ELSE "P" \o ToString(c.subj) \o "c" \o ToString(c.cs) \o ":" \o MsgIxStrs(c.cb) \o "d" \o MsgIxStr(c.db)
+MsgFamId(d) ==
+  IF d.kind = "flat" THEN "F" \o MsgIxStr(d.ix)
+  ELSE "P" \o ToString(d.subj) \o "c" \o ToString(d.cs) \o ":" \o MsgIxStrs(d.cb) \o "d" \o MsgIxStr(d.db)
 =============================================================================
